@@ -200,8 +200,13 @@ def generate(rng, opts):
         # name (one file or two, in one directory or two): CPython's site module reads the .pth files of a directory
         # in sorted order and the directories in search-path order, and appends what they name in that order
         n_listed = n_sp - 2
+        nested = rng.random() < 0.3
         for u in (n_sp - 2, n_sp - 1):
             holder = rng.randrange(n_listed)
+            if nested and u == n_sp - 1:
+                # the .pth file sits in a directory that is itself only known through a .pth file: CPython's site
+                # module reads .pth files in site directories only, never in the directories they add
+                holder = n_sp - 2
             fname = rng.choice(["a.pth", "extra.pth", "zz.pth", "B.pth", "_x.pth"])
             prev = dirs[holder].get(fname, rng.choice(["", "# comment\n", "\n"]))
             dirs[holder][fname] = prev + f"<SP{u}>\n" + rng.choice(["", "<ROOT>/does-not-exist\n"])
